@@ -677,6 +677,7 @@ htp_status_t htp_mpart_part_handle_data(htp_multipart_part_t *part, const unsign
                         char buf[255];
                         
                         strncpy(buf, part->parser->extract_dir, 254);
+                        buf[254] = '\0';
                         strncat(buf, "/libhtp-multipart-file-XXXXXX", 254 - strlen(buf));
 
                         part->file->tmpname = strdup(buf);
